@@ -163,7 +163,7 @@ def slice (l : Layout) (a b : Int) : Layout :=
 def halve (l : Layout) : Layout :=
   match l with
   | [] => [⟨0, 0, 0⟩]   -- layout_t<0>::halve() layout.hpp:1101-1103
-  | d :: sub => ⟨d.nelems.tdiv 2, 0, d.nelems⟩ :: (take (d :: sub) (d.size.tdiv 2))
+  | d :: sub => ⟨if d.nelems.tdiv 2 ≠ 0 then d.nelems.tdiv 2 else 1, 0, d.nelems⟩ :: (take (d :: sub) (d.size.tdiv 2))
 
 /-- `layout_t::scale(num, den)` layout.hpp:985-989 (the `assert(offset_ == 0)` is `scaleAsserts`). -/
 def scale (l : Layout) (num den : Int) : Layout :=
